@@ -10,6 +10,15 @@ func init() {
 	prop("C06", []string{"R-SHARED", "R-NOGO"},
 		"no unsynchronised write to memory reachable from the shared compiled Regex/Engine (or a package variable) on any path from any search, enumeration or replace method, over all strategies (R-SHARED); no goroutine is started on a search path (R-NOGO).",
 		"that every call returns its sequential result beyond the absence of shared writes; races inside the Go runtime/stdlib; Stats()/ResetStats() (documented unsafe, not search methods).")
+	prop("C16", []string{"R-GATE", "R-LITTRUNC", "R-ASMSTORE"},
+		"no literal sequence that may have dropped alternatives reaches the prefilter builder or a stored verification literal without a dominating coverage test (R-GATE); literal-list and literal-byte truncation always clears the covering/complete promise (R-LITTRUNC), so a 'complete' prefilter is built from untruncated literals; the Teddy assembly kernels store only to their frame, results and the candidate buffer (R-ASMSTORE).",
+		"fingerprint/bucket correctness of Teddy, Aho-Corasick and memmem results, 'smallest position at or after the offset' (value-level), SIMD = scalar equality.")
+	prop("C17", []string{"R-LITTRUNC", "R-GATE"},
+		"every shortening of a literal list marks partial coverage on every path, no collection loop returns a partial collection, every shortening of literal bytes clears Complete (R-LITTRUNC); partial sets are not consumed as covering sets (R-GATE).",
+		"that the extracted bytes are the right bytes (prefix/suffix/inner necessity is a language-level fact), LCP/LCS/minimisation arithmetic.")
+	prop("C12", []string{"R-LITTRUNC", "R-GATE"},
+		"the literal-count and literal-length limits (MaxLiterals, MaxLiteralLen, cross-product limit) can only shrink what a prefilter promises, never make a non-covering set look covering or a truncated literal look complete, and a partial set never gates a search (R-LITTRUNC, R-GATE).",
+		"equality of results under DFA on/off, state limits, ASCII optimisation, CPU feature masking: value-level and declined.")
 	prop("C05", []string{"R-RECURSION", "R-EPOCH"},
 		"every search-time recursion (call-graph cycle reachable from a search root) is guarded by a visited test-and-set gate on every path to the recursive call (R-RECURSION); the visited epoch of the backtracker is never advanced inside a start-position loop that calls the gated recursion, and every advance handles wrap-around (R-EPOCH).",
 		"the constant K and every value-dependent loop count (candidate loops of the reverse strategies, prefilter rescans); polynomial compile time. This is the weakest claim relative to the property: it decides two necessary conditions of the visited-table bound only.")
